@@ -162,15 +162,15 @@ func (x *Exec) doAppend(fr *frame, st *State, c *ssa.CallCommon, args []smt.T) s
 		}
 		return smt.Raw("(forall ((i!q Int)) (! "+body.S+" :pattern ("+strings.Join(ps, " ")+")))", smt.Bool)
 	}
-	relem := smt.Select(smt.Select(h2, sArr(r)), smt.Add(sOff(r), ri))
-	selem := smt.Select(smt.Select(h, sArr(s)), smt.Add(sOff(s), ri))
+	relem := smt.Select(smt.Select(h2, sArr(r)), x.at(sOff(r), ri))
+	selem := smt.Select(smt.Select(h, sArr(s)), x.at(sOff(s), ri))
 	st.assume(q(smt.Implies(smt.And(smt.Le(smt.IntLit(0), ri), smt.Lt(ri, sLen(s))), smt.Eq(relem, selem)), relem))
 	if !strArg {
-		telem := smt.Select(smt.Select(h, sArr(t)), smt.Add(sOff(t), smt.Sub(ri, sLen(s))))
+		telem := smt.Select(smt.Select(h, sArr(t)), x.at(sOff(t), smt.Sub(ri, sLen(s))))
 		st.assume(q(smt.Implies(smt.And(smt.Le(sLen(s), ri), smt.Lt(ri, newLen)), smt.Eq(relem, telem)), relem))
 		// the common single-element case, stated without quantifier as well
 		st.assume(smt.Implies(smt.Eq(tlen, smt.IntLit(1)),
-			smt.Eq(smt.Select(smt.Select(h2, sArr(r)), smt.Add(sOff(r), sLen(s))), smt.Select(smt.Select(h, sArr(t)), sOff(t)))))
+			smt.Eq(smt.Select(smt.Select(h2, sArr(r)), x.at(sOff(r), sLen(s))), smt.Select(smt.Select(h, sArr(t)), x.at(sOff(t), smt.IntLit(0))))))
 	}
 	// frame: other arrays unchanged; an in-place append leaves the cells outside [off+len, off+newLen) of the same array unchanged
 	st.assume(smt.Raw("(forall ((a!q Int)) (! (=> (not (= a!q "+sArr(r).S+")) (= (select "+h2.S+" a!q) (select "+h.S+" a!q))) :pattern ((select "+h2.S+" a!q))))", smt.Bool))
@@ -202,7 +202,7 @@ func (x *Exec) doCopy(fr *frame, st *State, c *ssa.CallCommon, args []smt.T) (sm
 	}
 	n := smt.Ite(smt.Lt(sLen(d), sLen(s)), sLen(d), sLen(s))
 	inRange := smt.And(smt.Le(sOff(d), ri), smt.Lt(ri, smt.Add(sOff(d), n)))
-	src := smt.Select(smt.Select(h, sArr(s)), smt.Add(sOff(s), smt.Sub(ri, sOff(d))))
+	src := smt.Select(smt.Select(h, sArr(s)), x.at(sOff(s), smt.Sub(ri, sOff(d))))
 	cell := smt.Select(smt.Select(h2, sArr(d)), ri)
 	st.assume(frame,
 		smt.Raw("(forall ((i!q Int)) (! (= "+cell.S+" "+smt.Ite(inRange, src, smt.Select(smt.Select(h, sArr(d)), ri)).S+") :pattern ("+cell.S+")))", smt.Bool))
@@ -221,7 +221,7 @@ var modelledFuncs = map[string]bool{
 	"errors.Is": true, "errors.New": true, "fmt.Errorf": true, "errors.Join": true, "bytes.Compare": true, "bytes.Equal": true,
 	"log.Panicf": true, "log.Fatalf": true, "log.Panic": true, "log.Fatal": true, "os.Exit": true,
 	"sync/atomic.AddUint64": true, "sync/atomic.LoadUint64": true, "sync/atomic.AddInt64": true, "sync/atomic.LoadInt64": true,
-	"sort.Strings": true,
+	"sort.Strings": true, "path/filepath.Base": true, "path/filepath.Join": true,
 }
 
 func (x *Exec) modelled(fn *ssa.Function) bool { return modelledFuncs[fn.String()] }
@@ -293,6 +293,24 @@ func (x *Exec) model(fr *frame, st *State, fn *ssa.Function, c *ssa.CallCommon, 
 	case "sync/atomic.LoadUint64", "sync/atomic.LoadInt64":
 		a, _ := x.resolveAddr(fr, st, c.Args[0])
 		return one(x.loadAddr(st, a, nil))
+	case "path/filepath.Base":
+		str := x.ctx.Sort(StrSort)
+		f := x.ctx.Fun("spec$fbase", []string{str}, str)
+		x.noteTrusted("model: filepath.Base(p) = fbase(p) (uninterpreted; axioms in contracts-ext/stdlib.gvc)")
+		return one(smt.App(str, f, args[0]))
+	case "path/filepath.Join":
+		elems := x.varargElems(fr, st, c, 0)
+		if len(elems) == 0 {
+			return nil, false
+		}
+		str := x.ctx.Sort(StrSort)
+		f := x.ctx.Fun("spec$fjoin", []string{str, str}, str)
+		r := elems[0]
+		for _, e := range elems[1:] {
+			r = smt.App(str, f, r, e)
+		}
+		x.noteTrusted("model: filepath.Join(a, b) = fjoin(a, b) (uninterpreted; axioms in contracts-ext/stdlib.gvc)")
+		return one(r)
 	case "sort.Strings":
 		// sorted permutation of the argument, in place: modelled as "contents of that array forgotten, ghost fact sorted";
 		// identity on an already sorted slice is not used by any contract so far
